@@ -174,6 +174,24 @@ CLAIMED = {
              "intervals (0.1, 0.3 ...) are outside this check. fakeh5 backend; counterexamples are "
              "replayed with real floats on a real HDF5 file.",
         ref="3 C08"),
+    "C05": dict(
+        text="PARTIAL. Decided: (i) for 8 link lists (group arrays / tags / multi-tags, tag and "
+             "multi-tag references, array / tag / group sources) and feature data, every pair of "
+             "appended candidates from a 15-entry table (own and foreign block, equal names in both "
+             "blocks, nested own and foreign sources, wrong kinds) is accepted iff it has the right "
+             "kind and belongs to the owning block (its source tree); refusals leave the list "
+             "unchanged; (ii) Dimension.link_data_array accepts an index vector iff its length equals "
+             "the rank, exactly one entry is -1 and no other is negative - for ALL integer vectors up "
+             "to length 3 - and the dimension then reports the addressed vector, the target's unit "
+             "and label, live; explicit ticks replace the link and vice versa; (iii) an attribute "
+             "written through any one of up to 7 access paths is read back through all others with "
+             "the same id, the same-named entity of the other block is untouched, removing a list "
+             "entry does not delete the entity.",
+        note="NOT decided: that an HDF5 hard link is the same object on disk and after reopening "
+             "(libhdf5; in fakeh5 a hard link is the shared node, pinned by the differential "
+             "script). Data frame links are outside (data frames do not work with the installed "
+             "NumPy). Counterexamples are replayed on a real HDF5 file.",
+        ref="3 C05"),
 }
 
 NOT_APPLICABLE = {
